@@ -11,10 +11,10 @@ def lens_list(tier):
     return [0x2222, 0x1221, 0x2112] if tier == 'quick' else [a << 12 | b << 8 | c << 4 | d for a in (1, 2) for b in (1, 2) for c in (1, 2) for d in (1, 2)]
 
 def run(ctx):
-    kf = known_findings('C23'); defs = kf_defines(kf)
+    kf, defs = sessin.kf_defs('C23')
     info = sessin.build(ctx)
     sessin.build(ctx, 'sess_sid.c', roots=['vf_sid_init', 'vf_sid_eq', 'vf_sid_ne', 'vf_sid_same_sender', 'vf_sid_same_target', 'vf_sid_same_side_sender', 'vf_sid_same_side_target',
-                                            'vf_msg_set_compids', 'vf_msg_sci', 'vf_msg_tci'])
+                                            'vf_msg_set_compids', 'vf_msg_sci', 'vf_msg_tci'], light=True)
     ctx.assumptions += sessin.ASSUME + ['no client list configured (LoginParameters::_clients empty); client-list membership and IP matching are outside this run',
                                         'no SessionConfig (_sf null): loggers/persister are not created at logon; no login schedule']
     for lens in lens_list(ctx.tier):
